@@ -1348,3 +1348,172 @@ pub fn max_record_case(rng: &mut Rng) -> RPos {
     }
     dense_fragmented_case(rng)
 }
+
+/// Unusual material: one side owns many promoted pieces of one kind (up to 15 queens / knights /
+/// bishops / rooks next to its king), far beyond what counting heuristics expect.
+pub fn heavy_material_case(rng: &mut Rng) -> RPos {
+    loop {
+        let mut p = RPos::empty();
+        p.stm = rc(rng);
+        place_kings(rng, &mut p, 0);
+        let rich = rc(rng);
+        let kind = *rng.pick(&[Piece::Queen, Piece::Queen, Piece::Knight, Piece::Bishop, Piece::Rook]);
+        let n = 9 + rng.usize(7); // 9..15 of that kind
+        for _ in 0..n {
+            let s = empty_sq(rng, &mut p);
+            p.sq[s] = Some((rich, kind));
+        }
+        for _ in 0..rng.below(6) {
+            let s = empty_sq(rng, &mut p);
+            let (_, r) = fr(s);
+            let mut pc = *rng.pick(&NONKING);
+            if pc == Piece::Pawn && (r == 0 || r == 7) {
+                pc = Piece::Knight;
+            }
+            p.sq[s] = Some((other(rich), pc));
+        }
+        random_clocks(rng, &mut p, false);
+        if p.structurally_sound().is_ok() && p.checkers().len() <= 2 {
+            return p;
+        }
+    }
+}
+
+/// Base for double-check classes: a king (often with castling rights and a clear path) attacked by
+/// two pieces at once (knight / pawn / slider in any combination).
+fn double_check_base(rng: &mut Rng) -> RPos {
+    let mut p = RPos::empty();
+    let us = rc(rng);
+    let them = other(us);
+    p.stm = us;
+    let br = rel_rank(us, 1);
+    let d = fwd(us);
+    let with_castle = rng.chance(1, 2);
+    let (kf, kr) = if with_castle { (rng.range(1, 6) as i32, br) } else { (rng.range(0, 7) as i32, rng.range(0, 7) as i32) };
+    let k = idx(kf, kr);
+    p.sq[k] = Some((us, Piece::King));
+    if with_castle {
+        if rng.chance(3, 4) {
+            let rf = rng.range(kf as i64 + 1, 7) as i32;
+            p.sq[idx(rf, br)] = Some((us, Piece::Rook));
+            p.rights[ci(us)][0] = Some(rf as u8);
+        }
+        if rng.chance(3, 4) {
+            let rf = rng.range(0, kf as i64 - 1) as i32;
+            p.sq[idx(rf, br)] = Some((us, Piece::Rook));
+            p.rights[ci(us)][1] = Some(rf as u8);
+        }
+    }
+    // two (sometimes one or three) checkers
+    let n = *rng.pick(&[2usize, 2, 2, 2, 1, 3]);
+    for _ in 0..n {
+        match rng.below(4) {
+            0 => {
+                let &(df, dr) = rng.pick(&KNIGHT_D);
+                if on(kf + df, kr + dr) && p.sq[idx(kf + df, kr + dr)].is_none() {
+                    p.sq[idx(kf + df, kr + dr)] = Some((them, Piece::Knight));
+                }
+            }
+            1 => {
+                let df = if rng.chance(1, 2) { 1 } else { -1 };
+                let r = kr + d;
+                if on(kf + df, r) && r != 0 && r != 7 && p.sq[idx(kf + df, r)].is_none() {
+                    p.sq[idx(kf + df, r)] = Some((them, Piece::Pawn));
+                }
+            }
+            _ => {
+                let &(df, dr) = rng.pick(&KING_D);
+                let nn = rng.range(1, 7) as i32;
+                let (x, y) = (kf + df * nn, kr + dr * nn);
+                if on(x, y) && p.sq[idx(x, y)].is_none() && (1..nn).all(|i| p.sq[idx(kf + df * i, kr + dr * i)].is_none()) {
+                    let diag = df != 0 && dr != 0;
+                    p.sq[idx(x, y)] = Some((them, if rng.chance(1, 3) { Piece::Queen } else if diag { Piece::Bishop } else { Piece::Rook }));
+                }
+            }
+        }
+    }
+    // the enemy king: opposition or far
+    let mut placed = false;
+    for _ in 0..10 {
+        let (df, dr) = (rng.range(-2, 2) as i32, rng.range(-2, 2) as i32);
+        if df.abs().max(dr.abs()) == 2 && on(kf + df, kr + dr) && p.sq[idx(kf + df, kr + dr)].is_none() && rng.chance(1, 2) {
+            p.sq[idx(kf + df, kr + dr)] = Some((them, Piece::King));
+            placed = true;
+            break;
+        }
+    }
+    if !placed {
+        far_king(rng, &mut p, them, k);
+    }
+    // own pieces that might capture a checker or interpose (they must not be allowed to)
+    for _ in 0..rng.below(4) {
+        let s = empty_sq(rng, &mut p);
+        let (_, r) = fr(s);
+        let mut pc = *rng.pick(&NONKING);
+        if pc == Piece::Pawn && (r == 0 || r == 7) {
+            pc = Piece::Knight;
+        }
+        p.sq[s] = Some((us, pc));
+    }
+    for _ in 0..rng.below(3) {
+        let s = empty_sq(rng, &mut p);
+        let (_, r) = fr(s);
+        let mut pc = *rng.pick(&NONKING);
+        if pc == Piece::Pawn && (r == 0 || r == 7) {
+            pc = Piece::Bishop;
+        }
+        p.sq[s] = Some((them, pc));
+    }
+    random_clocks(rng, &mut p, false);
+    if rng.chance(1, 4) {
+        p.half = *rng.pick(&[99, 100]);
+    }
+    p
+}
+
+/// Further rejection-sampled rare classes (see `special_class_case`): the mover is in double check
+/// (with castling rights; mated; with a single escape), or the only pseudo-legal move is an en passant
+/// capture that is illegal (so the position is stalemate or mate although a capture "exists").
+pub fn special_class_case2(rng: &mut Rng) -> (RPos, &'static str) {
+    let which = rng.below(4);
+    let mut last = RPos::empty();
+    for _ in 0..400 {
+        let p = match which {
+            3 => {
+                // EP geometry with a hemmed-in king
+                let mut q = ep_case(rng);
+                // strip most other movers of the side to move
+                for s in 0..64 {
+                    if let Some((c, pc)) = q.sq[s] {
+                        if c == q.stm && pc != Piece::King && pc != Piece::Pawn && rng.chance(3, 4) {
+                            q.sq[s] = None;
+                        }
+                    }
+                }
+                q
+            }
+            _ => double_check_base(rng),
+        };
+        if p.structurally_sound().is_err() || p.checkers().len() > 2 {
+            continue;
+        }
+        let legal = p.legal_moves();
+        let nchk = p.checkers().len();
+        let hit = match which {
+            0 => nchk == 2 && (p.rights[ci(p.stm)][0].is_some() || p.rights[ci(p.stm)][1].is_some()),
+            1 => nchk == 2 && legal.is_empty(),
+            2 => nchk == 2 && legal.len() == 1,
+            _ => legal.is_empty() && p.pseudo_moves().iter().any(|&m| p.is_ep_capture(m)),
+        };
+        if hit {
+            return (p, match which {
+                0 => "double-check-with-castling-rights",
+                1 => "double-check-mate",
+                2 => "double-check-single-escape",
+                _ => "no-legal-move-but-illegal-en-passant-exists",
+            });
+        }
+        last = p;
+    }
+    (last, "special-class-not-hit")
+}
